@@ -31,7 +31,50 @@ package conn
 //@   ensures [contentKept] err == nil && packet.EOF ==> (forall i int :: 0 <= i && i < old(len(ch.recving)) ==> msg[i] == old(ch.recving[i])) && (forall j int :: 0 <= j && j < len(packet.Data) ==> msg[old(len(ch.recving)) + j] == old(packet.Data[j]))
 
 // ---------------------------------------------------------------- C20: authenticated handshake
+// The authentication exchange runs over the new connection's own Write and Read (both verified below to
+// keep the nonce invariants); it is concurrent (async.Parallel), hence trusted.
+//@ trusted func shareAuthSignature(sc io.ReadWriter, pubKey ecdsa.PublicKey, signature []byte) (recvMsg authSigMessage, err error)
+//@   modifies *
+//@   ensures dyntype(sc) == typeid(*SecretConnection) && old(sendState(unbox(sc, *SecretConnection)) && recvState(unbox(sc, *SecretConnection))) ==> sendState(unbox(sc, *SecretConnection)) && recvState(unbox(sc, *SecretConnection))
 //@ func MakeSecretConnection(conn io.ReadWriteCloser, locPrivKey *ecdsa.PrivateKey) (sc *SecretConnection, err error)
 //@   for C20
 //@   modifies *
 //@   ensures [onlyAfterSignatureCheck] err == nil ==> sc != nil && (exists h Content, s Content :: crypto.sigOKc(crypto.pubAddr(sc.remPubKey), h, s))
+//@   ensures [sessionStartsWithUnusedNonces] err == nil ==> sendState(sc) && recvState(sc)
+
+// ---------------------------------------------------------------- C20: the nonce of a direction is never reused
+// incrNonce advances the 64-bit little-endian counter in nonce[4:12] by exactly one, keeps the four
+// prefix bytes, and panics rather than wrap: within a session every sealed frame gets a fresh nonce.
+//@ func incrNonce(nonce *[12]byte)
+//@   for C20
+//@   requires nonce != nil
+//@   modifies *nonce
+//@   ensures [counterPlusOne] binary.u64le(nonce[4:]) == old(binary.u64le(nonce[4:])) + 1
+//@   ensures [prefixKept] forall i int :: 0 <= i && i < 4 ==> nonce[i] == old(nonce[i])
+//@   ensures [neverWraps] old(binary.u64le(nonce[4:])) < 18446744073709551615
+
+// The receive direction's state: the nonce array exists and its counter is above every counter
+// already used with the receive key.
+//@ spec func recvState(sc *SecretConnection) bool = sc != nil && sc.recvNonce != nil && sc.recvAead != nil && sc.recvAead.lastNonce < cipher.nonceCtr(sc.recvNonce[:])
+//@ spec func sendState(sc *SecretConnection) bool = sc != nil && sc.sendNonce != nil && sc.sendAead != nil && sc.sendAead.lastNonce < cipher.nonceCtr(sc.sendNonce[:])
+
+// Read: a frame is opened under the current receive nonce, which is advanced after every accepted
+// frame (and only then); whatever the peer sends, Read does not panic and returns at most len(data).
+//@ func (sc *SecretConnection) Read(data []byte) (n int, err error)
+//@   for C20 C18
+//@   safe
+//@   requires recvState(sc)
+//@   requires [callerBufferIsNotTheNonce] !sameArray(data, sc.recvNonce[:])
+//@   modifies *
+//@   ensures [recvNonceInvariantKept] recvState(sc)
+//@   ensures [atMostRequested] 0 <= n && n <= len(data)
+
+// Write: every frame is sealed under the current send nonce, which is advanced after every seal, so
+// no two frames of a session are sealed under the same nonce.
+//@ func (sc *SecretConnection) Write(data []byte) (n int, err error)
+//@   for C20
+//@   requires sendState(sc)
+//@   modifies *
+//@   ensures [sendNonceInvariantKept] sendState(sc)
+//@   loop 1:
+//@     invariant sendState(sc)
